@@ -172,3 +172,46 @@ class SimLoop(asyncio.BaseEventLoop):
         self._scheduled.clear()
         if not self.is_closed():
             self.close()
+
+
+class LoopStalled(BaseException):
+    """Raised by the watchdog inside code that keeps the loop busy within ONE handle for seconds of wall time."""
+
+
+class Watchdog:
+    """A single loop handle never legitimately takes seconds of CPU.  If the handle counter does not move between two
+    ticks of an interval timer that counts this process's own CPU time (so a busy machine cannot trip it), the code
+    running inside that handle is spinning: it is interrupted (so that the run can end) and the run is marked as
+    stalled - a violation, not a harness error."""
+    PERIOD = 5.0
+    tripped = 0          # per process: once a run has stalled, further runs in this process are skipped (see Sim.execute)
+
+    def __init__(self, sim):
+        self.sim = sim
+        self.last = None
+        self.old = None
+
+    def start(self):
+        import signal
+        import threading
+        if threading.current_thread() is not threading.main_thread():
+            return
+        self.old = signal.signal(signal.SIGVTALRM, self._tick)
+        signal.setitimer(signal.ITIMER_VIRTUAL, self.PERIOD, self.PERIOD)
+
+    def stop(self):
+        import signal
+        if self.old is not None:
+            signal.setitimer(signal.ITIMER_VIRTUAL, 0)
+            signal.signal(signal.SIGVTALRM, self.old)
+            self.old = None
+
+    def _tick(self, signum, frame):
+        sim = self.sim
+        now = (sim.loop.handles_run, len(getattr(sim, 'events', ())))
+        if now == self.last and getattr(sim.loop, "in_handle", False):
+            sim.stalled = True
+            Watchdog.tripped += 1
+            self.last = None
+            raise LoopStalled("no progress within one loop handle for %.0f s of CPU time" % self.PERIOD)
+        self.last = now
